@@ -26,6 +26,7 @@ func scenarios(thorough bool) []poolh.Params {
 	if thorough {
 		s = append(s,
 			poolh.Params{Max: 1, Callers: 3, CallsEach: 1, Env: []string{"kill:1"}},
+			poolh.Params{Max: 1, Callers: 3, CallsEach: 1, Env: []string{"cancel:2", "kill:1"}},
 			poolh.Params{Max: 2, Callers: 3, CallsEach: 2, Env: []string{"kill:2"}},
 			poolh.Params{Max: 2, Callers: 3, CallsEach: 1, SlowReady: true, Env: []string{"kill:1", "cancel:2"}},
 		)
@@ -37,7 +38,7 @@ func main() {
 	kit.Main("C27", "model_checking", func(c *kit.Ctx) {
 		scs := scenarios(c.Thorough())
 		mk := func(p poolh.Params) sx.Scenario[poolh.Params] {
-			return sx.Scenario[poolh.Params]{Name: "pool", Params: p, MaxSteps: 6000,
+			return sx.Scenario[poolh.Params]{Name: "pool", Params: p, MaxSteps: 6000, KeepChanLog: true,
 				Body:  func(p poolh.Params, o *sx.Obs) { poolh.Body(p, o, dump) },
 				Check: poolh.CheckC27}
 		}
